@@ -79,6 +79,19 @@ func (s *SessionStore) Clear(rw http.ResponseWriter, req *http.Request) error {
 		}
 	}
 
+	// Session cookies already set on this response (a session refreshed while
+	// handling this very request) must not survive the clear either.
+	for _, line := range append([]string{}, rw.Header()["Set-Cookie"]...) {
+		c, err := http.ParseSetCookie(line)
+		if err != nil || c.MaxAge < 0 || !isSessionCookieName(s.Cookie.Name, c.Name) {
+			continue
+		}
+		if _, err := req.Cookie(c.Name); err == nil {
+			continue // presented by the request: cleared above
+		}
+		http.SetCookie(rw, s.makeCookie(req, c.Name, "", time.Hour*-1))
+	}
+
 	return nil
 }
 
